@@ -100,6 +100,9 @@ func (x *runner) settledOnce() (bool, string) {
 	w := x.w
 	for c, cl := range w.Conns {
 		sid := fmt.Sprintf("s%d", c)
+		if cl.Node.Down {
+			continue
+		}
 		if cl.Established() && !cl.Ended() {
 			if w.Count("shutdown.done:"+sid) > 0 {
 				cl.MarkEnded()
